@@ -297,7 +297,7 @@ def run_scenario(idx: int, sc: dict, order: tuple[int, ...]) -> dict:
                 continue
             row = min(vis, key=lambda r: (prio.get(r["key"][1], 5), r["qid"]))
             run.deliver(row["qid"])
-            for r in run.raw.execute("SELECT ref_id FROM stage_executions WHERE status = 'SUCCEEDED'"):
+            for r in run.raw.execute("SELECT ref_id FROM stage_executions WHERE status = 'SUCCEEDED' AND execution_id LIKE 'W-%'"):
                 if r["ref_id"] in BR and r["ref_id"] not in completed:
                     completed.append(r["ref_id"])
         res["completed"] = completed
@@ -305,7 +305,7 @@ def run_scenario(idx: int, sc: dict, order: tuple[int, ...]) -> dict:
         jl = [e for e in LEDGER.entries if e["task"] == "j.1"]
         res["join_execs"] = len(jl)
         res["seen"] = _view_tag(jl[0]["view"]) if jl else None
-        row = run.raw.execute("SELECT context, status FROM stage_executions WHERE ref_id = 'j'").fetchone()
+        row = run.raw.execute("SELECT context, status FROM stage_executions WHERE ref_id = 'j' AND execution_id LIKE 'W-%'").fetchone()
         dbctx = json.loads(row["context"])
         res["join_status"] = row["status"]
         res["db_ctx"] = _view_tag(user_view(dbctx))
